@@ -131,10 +131,27 @@ type c18handler struct {
 	torn  []string
 	n     int64
 	trace func(kind, table string, mdl model.Model) // optional, debugging
+	cl    client.Client                             // when set, callbacks call back into the client API
+	calls int64
 }
 
 func (h *c18handler) check(table string, mdl model.Model) {
-	atomic.AddInt64(&h.n, 1)
+	n := atomic.AddInt64(&h.n, 1)
+	if h.cl != nil && n%16 == 0 {
+		// an application reacting to an event from inside the callback; this also happens
+		// while the connection is being lost or re-established
+		atomic.AddInt64(&h.calls, 1)
+		_ = h.cl.Connected()
+		_ = h.cl.CurrentEndpoint()
+		if n%64 == 0 {
+			ctx, cancel := context.WithTimeout(context.Background(), 300*time.Millisecond)
+			_ = h.cl.Echo(ctx)
+			if mdl != nil {
+				_ = h.cl.Get(ctx, model.Clone(mdl))
+			}
+			cancel()
+		}
+	}
 	if t := c18Torn(h.m, table, mdl); t != "" {
 		h.mu.Lock()
 		h.torn = append(h.torn, t)
@@ -299,8 +316,9 @@ func c18Stress(r *ev.Run, m *dyn.Model, p *prng.R, batch, si int) {
 		r.Inconclusive("connect/monitor: " + err.Error())
 		return
 	}
-	h := &c18handler{m: m}
+	h := &c18handler{m: m, cl: cl}
 	cl.Cache().AddEventHandler(h)
+	defer func() { r.Count("client_api_calls_from_inside_event_callbacks", int(atomic.LoadInt64(&h.calls))) }()
 	var tlf func(format string, a ...interface{})
 	if os.Getenv("VERIF_C18_TRACE") != "" {
 		h.trace = func(kind, table string, mdl model.Model) {
